@@ -16,6 +16,8 @@ from aval import mask, to_signed
 from interp import Interp
 
 LEVEL = 'proof'
+NS_QUICK = (2, 3, 8, 16, 31, 32)
+NS_ALL = tuple(range(2, 33))
 
 CMP_OPS = {'Eq', 'Ne', 'Lt', 'Le', 'Gt', 'Ge', 'Cmp'}
 CMP_CALLS = ('core::cmp::PartialOrd::', 'core::cmp::PartialEq::', 'core::cmp::Ord::', 'core::cmp::impls::')
@@ -200,7 +202,7 @@ def comparison_only(prog, path, seen=None):
     return ok
 
 
-def run_function(ctx, prog, pty, tykey, label, path, arity, spec, out_bits, cells, cmp_only, gargs=None):
+def run_function(ctx, prog, pty, tykey, label, path, arity, spec, out_bits, cells, cmp_only, gargs=None, align=0):
     """returns (obligations, discharged)"""
     I = Interp(prog)
     obligations = discharged = 0
@@ -217,7 +219,7 @@ def run_function(ctx, prog, pty, tykey, label, path, arity, spec, out_bits, cell
             t = prog.types.get(tk) or {}
             real_args.append(ARef(_static_frame(a), 0, []) if t.get('k') == 'ref' else a)
         out = I.run(path, real_args, gargs)
-        wits = list(itertools.product(*[witnesses(lo, hi, 3) for lo, hi in cell]))
+        wits = list(itertools.product(*[sorted({(w >> align) << align for w in witnesses(lo, hi, 3)}) for lo, hi in cell]))
         if same_gap:
             wits = [w for w in wits]
         must = (not same_gap) or (not cmp_only)
@@ -355,6 +357,16 @@ def run(ctx):
             obligations += o
             discharged += d
             nfun += 1
+            # the same for the N-bit patterns of every analysed width (left-aligned, witnesses canonical): a body that does use N - a shift
+            # by 32-N, a mask - is then decided per N on the cells that separate NaR, zero and the two signs
+            for n in (NS_QUICK if ctx.tier == 'quick' else NS_ALL):
+                sh = 32 - n
+                ncells = [(lo << sh, (hi << sh) | ((1 << sh) - 1) if lo != hi else hi << sh) for lo, hi in order_cells(n, [0, 1 << (n - 1)])]
+                o, d = run_function(ctx, prog, pty, tykey, '%s<%d>::%s' % (tname, n, name), path, arity, spec, out_bits, ncells,
+                                    comparison_only(prog, path), gargs={'N': n}, align=sh)
+                obligations += o
+                discharged += d
+                ctx.count('generic_width_instances')
         p_, im = prog.find_impl_method('core::ops::Neg', tykey, 'neg')
         if p_:
             arity, spec, out_bits = sp['neg']
@@ -362,6 +374,13 @@ def run(ctx):
             obligations += o
             discharged += d
             nfun += 1
+            for n in (NS_QUICK if ctx.tier == 'quick' else NS_ALL):
+                sh = 32 - n
+                ncells = [(lo << sh, (hi << sh) | ((1 << sh) - 1) if lo != hi else hi << sh) for lo, hi in order_cells(n, [0, 1 << (n - 1)])]
+                o, d = run_function(ctx, prog, pty, tykey, '<%s<%d> as Neg>::neg' % (tname, n), p_, 1, spec, 32, ncells, False, gargs={'N': n}, align=sh)
+                obligations += o
+                discharged += d
+                ctx.count('generic_width_instances')
     ctx.cov['obligations'] = obligations
     ctx.cov['discharged'] = discharged
     ctx.cov['checker_cmd'] = './check C10 --tier ' + ctx.tier
